@@ -1,7 +1,7 @@
 -------------------------- MODULE Trace_CanvasCells --------------------------
 (* Trace validation of vbi_draw_vt_page_region / vbi_draw_cc_page_region against CanvasCells.
 
-   Log of harness/drv_exportio.c:
+   Log of harness/drv_exportio.c (one JSON object per line, strings of cell marks split into sequences by the check):
    Page  rows cols sz           sizes of the cells of the vbi_page the decoder produced
    Draw  fmt stride col row w h cells pad pre post
          one region drawn into a fresh canvas of the documented size (rowstride * h * cell height bytes) that
@@ -9,43 +9,55 @@
          "G" the pixel block equals the block the library's full-page rendering (same format, reveal, flash)
          shows for page cell (row + i, col + j), "U" the guard pattern is intact, "X" anything else;
          pad[i] = "U" / "X" for the bytes between the end of the region's pixel rectangle and the next line
-         (stride exact: none; plus5: 5 bytes; full: the rest of a page-wide image);  pre / post = number of
-         modified bytes in the guard bands before / after the canvas.
+         (stride exact: none; plus5 / plus8: 5 / 8 bytes; full: the rest of a page-wide image);  pre / post =
+         number of modified bytes in the guard bands before / after the canvas.
    A Draw line is accepted iff the observation equals CanvasCells!Post applied to a fresh canvas: nothing
    outside the region's rectangle is touched (any region, stride, format), an unsupported format touches
    nothing at all, and a region that does not cut a double width / double size character shows, cell by
-   cell, what the full-page rendering shows. *)
+   cell, what the full-page rendering shows.
+
+   Every line is judged (a rejected line does not end the validation): the verdict of a rejected line is
+   printed as <<"TV-BAD", line, reason, "cut" | "whole">> and counted; AllAccepted fails at the end of the log
+   when any line was rejected. *)
 EXTENDS MC_CanvasCells, Json, IOUtils
 
 Log == ndJsonDeserialize(IOEnv.TRACEFILE)
-VARIABLES l, page
-tvars == <<l, page, vars>>
+VARIABLES l, page, nbad
+tvars == <<l, page, nbad, vars>>
 Ev == Log[l]
 NoPage == [rows |-> 0, cols |-> 0, sz |-> <<>>]
 
 \* the region in the model's coordinates (from 1)
 Rg(ev) == [col |-> ev.col + 1, row |-> ev.row + 1, w |-> ev.w, h |-> ev.h]
 \* the observation the specification predicts for cell (i, j) of the region's canvas
-Expect(p, ev, i, j) ==
-  LET rg == Rg(ev)
-      r == rg.row + i - 1  c == rg.col + j - 1
-      after == Post(p, rg, ev.fmt, Fresh(p))[<<r, c>>]
-  IN IF after = U THEN "U" ELSE IF after = Shown(p, r, c) THEN "G" ELSE "X"
-FrameOK(ev) == ev.pre = 0 /\ ev.post = 0 /\ \A i \in DOMAIN ev.pad : ev.pad[i] = "U"
-Observed(p, ev) ==
-  /\ RegionOK(p, Rg(ev))
-  /\ FrameOK(ev)
-  /\ Len(ev.cells) = ev.h /\ \A i \in 1..ev.h : Len(ev.cells[i]) = ev.w
-  /\ (~Supported(ev.fmt) \/ ~Cuts(p, Rg(ev))) => \A i \in 1..ev.h : \A j \in 1..ev.w : ev.cells[i][j] = Expect(p, ev, i, j)
+Expect(p, ev, i, j) == PostMark(p, Rg(ev), ev.fmt, Rg(ev).row + i - 1, Rg(ev).col + j - 1)
+Shape(ev) == Len(ev.cells) = ev.h /\ Len(ev.pad) = ev.h /\ \A i \in 1..ev.h : Len(ev.cells[i]) = ev.w
 
+Verdict(p, ev) ==
+  IF ~RegionOK(p, Rg(ev)) \/ ~Shape(ev) THEN "malformed"
+  ELSE IF ev.pre # 0 THEN "outside:before-canvas"                        \* Frame: nothing outside the region's rectangle
+  ELSE IF ev.post # 0 THEN "outside:after-canvas"
+  ELSE IF \E i \in 1..ev.h : ev.pad[i] # "U" THEN "outside:line-padding"
+  ELSE IF ~Supported(ev.fmt)
+       THEN (IF \A i \in 1..ev.h : \A j \in 1..ev.w : ev.cells[i][j] = "U" THEN "ok" ELSE "unsupported-format-drew")
+  ELSE IF Cuts(p, Rg(ev)) THEN "ok"
+  ELSE IF \A i \in 1..ev.h : \A j \in 1..ev.w : ev.cells[i][j] = Expect(p, ev, i, j) THEN "ok"
+  ELSE "cells-differ-from-full-page"
+
+\* (the pages of the decoder need not be WellFormed: enhancement data can leave continuation cells without an anchor; Post, Cuts
+\* and the frame condition are meaningful for any arrangement of sizes)
 TPage == /\ Ev.a = "Page" /\ Len(Ev.sz) = Ev.rows * Ev.cols
-         /\ page' = [rows |-> Ev.rows, cols |-> Ev.cols, sz |-> Ev.sz]
-         /\ WellFormed(page')
-TDraw == Ev.a = "Draw" /\ page.rows > 0 /\ Observed(page, Ev) /\ UNCHANGED page
+         /\ page' = [rows |-> Ev.rows, cols |-> Ev.cols, sz |-> Ev.sz] /\ UNCHANGED nbad
+TDraw == /\ Ev.a = "Draw" /\ page.rows > 0 /\ UNCHANGED page
+         /\ LET v == Verdict(page, Ev) IN
+            /\ IF v = "ok" THEN TRUE
+               ELSE PrintT(<<"TV-BAD", l, v, IF RegionOK(page, Rg(Ev)) /\ Cuts(page, Rg(Ev)) THEN "cut" ELSE "whole">>)
+            /\ nbad' = nbad + (IF v = "ok" THEN 0 ELSE 1)
 
-TInit == l = 1 /\ page = NoPage /\ Init
+TInit == l = 1 /\ page = NoPage /\ nbad = 0 /\ Init
 TNext == l <= Len(Log) /\ l' = l + 1 /\ (TPage \/ TDraw) /\ UNCHANGED vars
 TSpec == TInit /\ [][TNext]_tvars
+AllAccepted == l = Len(Log) + 1 => nbad = 0
 TraceAccepted == LET n == TLCGet("stats").diameter - 1 IN
                  IF n = Len(Log) THEN TRUE
                  ELSE PrintT(<<"TV-REJECT", n + 1, Len(Log)>>) /\ FALSE
